@@ -1640,13 +1640,13 @@ mzd_t *mzd_submatrix(mzd_t *S, mzd_t const *M, rci_t const startrow, rci_t const
     }
   } else {
     wi_t j;
+    word const mask_end = __M4RI_LEFT_BITMASK(ncols % m4ri_radix);
     for (rci_t i = 0; i < nrows; i++) {
       word *srow = mzd_row(S, i);
       for (j = 0; j + m4ri_radix < ncols; j += m4ri_radix)
         srow[j / m4ri_radix] = mzd_read_bits(M, startrow + i, startcol + j, m4ri_radix);
-      srow[j / m4ri_radix] &= ~S->high_bitmask;
-      srow[j / m4ri_radix] |=
-          mzd_read_bits(M, startrow + i, startcol + j, ncols - j) & S->high_bitmask;
+      srow[j / m4ri_radix] &= ~mask_end;
+      srow[j / m4ri_radix] |= mzd_read_bits(M, startrow + i, startcol + j, ncols - j) & mask_end;
     }
   }
   __M4RI_DD_MZD(S);
